@@ -153,6 +153,46 @@ func diffDirs(oldDir, newDir string, comp Comp, slice *wvlib.Rng) (*DiffResult, 
 	return &DiffResult{Patch: pb.Bytes(), Sig: sb.Bytes(), Old: oldC, New: newC, OldSig: oldSig, Fresh: dctx.FreshBytes, Reused: dctx.ReusedBytes}, nil
 }
 
+// storedSignature: the signature of a build as a second push sees it - written to a signature stream by a diff
+// against nothing, then loaded back with ReadSignature (the stream does not carry every field: ShortSize is
+// rebuilt from the container).
+func storedSignature(dir string) (*pwr.SignatureInfo, error) {
+	c, err := tlc.WalkAny(dir, tlc.WalkOpts{})
+	if err != nil {
+		return nil, err
+	}
+	dctx := &pwr.DiffContext{
+		Compression: Comp{"none", 0}.settings(), Consumer: quietConsumer,
+		SourceContainer: c, Pool: fspool.New(c, dir), TargetContainer: &tlc.Container{}, TargetSignature: nil,
+	}
+	var pb, sb bytes.Buffer
+	if err := dctx.WritePatch(context.Background(), &pb, &sb); err != nil {
+		return nil, err
+	}
+	return pwr.ReadSignature(context.Background(), bytesSource(sb.Bytes()))
+}
+
+// diffAgainstStored diffs newDir against the STORED signature of oldDir; returns fresh and reused byte counts.
+func diffAgainstStored(oldDir, newDir string) (fresh, reused int64, err error) {
+	si, err := storedSignature(oldDir)
+	if err != nil {
+		return 0, 0, err
+	}
+	newC, err := tlc.WalkAny(newDir, tlc.WalkOpts{})
+	if err != nil {
+		return 0, 0, err
+	}
+	dctx := &pwr.DiffContext{
+		Compression: Comp{"none", 0}.settings(), Consumer: quietConsumer,
+		SourceContainer: newC, Pool: fspool.New(newC, newDir), TargetContainer: si.Container, TargetSignature: si.Hashes,
+	}
+	var pb, sb bytes.Buffer
+	if err := dctx.WritePatch(context.Background(), &pb, &sb); err != nil {
+		return 0, 0, err
+	}
+	return dctx.FreshBytes, dctx.ReusedBytes, nil
+}
+
 // PMsg is a decoded patch message in canonical form.
 type PMsg struct {
 	Kind        string // H, O (sync op), B (bsdiff header), C (control)
